@@ -6,7 +6,32 @@ use crate::errs::{ErrObs, ErrTy};
 use crate::insp::{mix, take_log, Ev, St, BASE, LOCS};
 use crate::val::{self, char_to_tok, tok_to_char, Val};
 use chumsky::error::{Cheap, EmptyErr, Rich, Simple};
+use crate::build::{CSpan, SSpan};
+use chumsky::input::{Input, IoInput, Stream};
+use chumsky::span::Span;
 use chumsky::Parser;
+
+thread_local! {
+    /// indices of the items a Stream pulled from its iterator, in pull order (C10)
+    pub static PULLS: std::cell::RefCell<Vec<usize>> = std::cell::RefCell::new(Vec::new());
+}
+/// an iterator that logs which item each `next` hands out
+#[derive(Clone)]
+pub struct Counting<I> {
+    it: I,
+    idx: usize,
+}
+impl<I: Iterator> Iterator for Counting<I> {
+    type Item = I::Item;
+    fn next(&mut self) -> Option<I::Item> {
+        let x = self.it.next();
+        if x.is_some() {
+            PULLS.with(|p| p.borrow_mut().push(self.idx));
+            self.idx += 1;
+        }
+        x
+    }
+}
 use serde_json::{json, Value as J};
 use std::panic::{catch_unwind, AssertUnwindSafe};
 
@@ -56,6 +81,7 @@ pub struct Obs {
     pub live_after: i64,
     pub double_drops: u64,
     pub created: u64,
+    pub pulls: Vec<usize>,
 }
 
 impl Obs {
@@ -145,6 +171,7 @@ pub fn run_kind<'a, I: Kind<'a>, E: ErrTy<'a, I>>(g: &G, input: I, toks: &[char]
             o.insp = st.count;
         }
     }
+    o.pulls = PULLS.with(|p| p.borrow().clone());
     o.live_after = val::live_count() as i64 - live0;
     o.double_drops = val::double_drops() - dd0;
     o.created = val::created() - cr0;
@@ -190,6 +217,68 @@ pub fn run_case_as(c: &Case, kind: &str, ety: &str, mode: &str) -> Result<Obs, S
             match ety {
                 "rich" => run_kind::<&[char], Rich<char>>(&c.g, &v[..], &c.inp, mode),
                 e => Err(format!("error type {e} not instantiated for kind slice")),
+            }
+        }
+        "array" => {
+            LOCS.with(|l| l.borrow_mut().clear());
+            macro_rules! arr {
+                ($n:literal) => {{
+                    let a: [char; $n] = <[char; $n]>::try_from(&c.inp[..]).unwrap();
+                    BASE.with(|b| *b.borrow_mut() = (a.as_ptr() as usize, std::mem::size_of::<char>()));
+                    run_kind::<&[char; $n], Rich<char>>(&c.g, &a, &c.inp, mode)
+                }};
+            }
+            if ety != "rich" {
+                return Err(format!("error type {ety} not instantiated for kind array"));
+            }
+            match c.inp.len() {
+                0 => arr!(0),
+                1 => arr!(1),
+                2 => arr!(2),
+                3 => arr!(3),
+                4 => arr!(4),
+                n => Err(format!("array inputs of length {n} not instantiated")),
+            }
+        }
+        "stream" | "bstream" | "mapped" | "mstream" | "wctx" | "mapspan" | "io" | "bytes" => {
+            if ety != "rich" {
+                return Err(format!("error type {ety} not instantiated for kind {kind}"));
+            }
+            LOCS.with(|l| l.borrow_mut().clear());
+            BASE.with(|b| *b.borrow_mut() = (0, 1));
+            PULLS.with(|p| p.borrow_mut().clear());
+            let toks = c.inp.clone();
+            let n = toks.len();
+            // tokens of the gapped kinds carry their own spans: token i covers 3i+1 .. 3i+2, eoi = 3n .. 3n
+            let spanned: Vec<(char, SSpan)> = toks.iter().enumerate().map(|(i, t)| (*t, SSpan::from(3 * i + 1..3 * i + 2))).collect();
+            let eoi = SSpan::from(3 * n..3 * n);
+            match kind {
+                "stream" => run_kind::<_, Rich<char>>(&c.g, Stream::from_iter(Counting { it: toks.clone().into_iter(), idx: 0 }), &c.inp, mode),
+                "bstream" => run_kind::<_, Rich<char>>(&c.g, Stream::from_iter(Counting { it: toks.clone().into_iter(), idx: 0 }).boxed(), &c.inp, mode),
+                "mapped" => run_kind::<_, Rich<char>>(&c.g, (&spanned[..]).map(eoi, |(t, s): &(char, SSpan)| (t, s)), &c.inp, mode),
+                "mstream" => run_kind::<_, Rich<char>>(&c.g, Stream::from_iter(spanned.clone().into_iter()).boxed().map(eoi, |(t, s): (char, SSpan)| (t, s)), &c.inp, mode),
+                "wctx" => run_kind::<_, Rich<char, CSpan>>(&c.g, (&c.inp[..]).with_context::<CSpan>(0), &c.inp, mode),
+                "mapspan" => run_kind::<_, Rich<char, CSpan>>(
+                    &c.g,
+                    (&c.inp[..]).map_span(|s: SSpan| CSpan::new(100, s.start + 100..s.end + 100)),
+                    &c.inp,
+                    mode,
+                ),
+                "io" => {
+                    if !toks.iter().all(|t| t.is_ascii()) {
+                        return Err("IoInput carries bytes: ASCII tokens only".into());
+                    }
+                    let bytes: Vec<u8> = toks.iter().map(|t| *t as u8).collect();
+                    run_kind::<_, Rich<u8>>(&c.g, IoInput::new(std::io::Cursor::new(bytes)), &c.inp, mode)
+                }
+                _ => {
+                    if !toks.iter().all(|t| t.is_ascii()) {
+                        return Err("byte slices: ASCII tokens only".into());
+                    }
+                    let bytes: Vec<u8> = toks.iter().map(|t| *t as u8).collect();
+                    BASE.with(|b| *b.borrow_mut() = (bytes.as_ptr() as usize, 1));
+                    run_kind::<&[u8], Rich<u8>>(&c.g, &bytes[..], &c.inp, mode)
+                }
             }
         }
         k => Err(format!("unknown input kind {k}")),
